@@ -296,6 +296,16 @@ func (q qiDecoder) mapValue(v reflect.Value) error {
 func (q qiDecoder) value(v reflect.Value) error {
 	switch v.Kind() {
 	case reflect.Interface:
+		if v.IsNil() && v.CanSet() {
+			// nothing to ask an empty interface value (a struct
+			// field of type value.Value): decode its static type.
+			el, err := q.readValue(v.Type())
+			if err != nil {
+				return err
+			}
+			v.Set(el)
+			return nil
+		}
 		i := v.Interface()
 		b, ok := i.(BinaryDecoder)
 		if ok {
